@@ -49,7 +49,8 @@ class Sys(e2.DevSys):
         self.finite = self.ttl != INF
         self.seam = RandomSeam(Choice(default=cfg["frac"]))
         self.seam.__enter__()
-        self.t = timings(INITIAL_DELAY_MIN=0.125, INITIAL_DELAY_MAX=0.25, REPETITIONS_MAX=1, REPETITIONS_BASE_DELAY=0.125,
+        ini = cfg.get("initial", (0.125, 0.25))
+        self.t = timings(INITIAL_DELAY_MIN=ini[0], INITIAL_DELAY_MAX=ini[1], REPETITIONS_MAX=1, REPETITIONS_BASE_DELAY=0.125,
                          CYCLIC_OFFER_DELAY=1, ANNOUNCE_TTL=self.ttl, SUBSCRIBE_TTL=self.ttl, FIND_TTL=3,
                          SUBSCRIBE_REFRESH_INTERVAL=cfg["refresh"], SEND_COLLECTION_TIMEOUT=cfg["collect"],
                          REQUEST_RESPONSE_DELAY_MIN=2.0 ** -6, REQUEST_RESPONSE_DELAY_MAX=2.0 ** -5)
@@ -295,6 +296,11 @@ def cfgs(ctx):
         out.append(dict(sid=sid, name="T1-finite", ttl=3, refresh=2, collect=C, frac=frac))
         out.append(dict(sid=sid, name="T2-infinite-no-refresh", ttl=INF, refresh=None, collect=C, frac=frac))
         out.append(dict(sid=sid, name="T3-infinite-refresh", ttl=INF, refresh=2, collect=0, frac=frac))
+        if frac == 0.0:
+            # no initial delay: a stack that is stopped and started again has its StopOffer and its first new Offer in
+            # one send-collection period
+            out.append(dict(sid=sid, name="T5-infinite-no-refresh-no-initial-delay", ttl=INF, refresh=None, collect=C, frac=frac,
+                            initial=(0.0, 0.0)))
         if ctx.thorough:
             out.append(dict(sid=sid, name="T4-finite-short", ttl=2, refresh=1, collect=0, frac=frac))
     return out
@@ -307,7 +313,7 @@ def restrict(thorough, cfg, devs, p, k):
         if thorough:
             return True
         # quick: second disturbance within 1.25 s of the first, process events only, one choice of delays
-        return cfg["frac"] == 0.0 and p[0] - devs[-1][0] <= 1.25 and p[2][0] in (
+        return cfg["frac"] == 0.0 and cfg["name"] in ("T1-finite", "T2-infinite-no-refresh") and p[0] - devs[-1][0] <= 1.25 and p[2][0] in (
             "stop", "start", "crash-restart", "restart") and p[1] == "pre"
     return False
 
